@@ -242,6 +242,13 @@ var writerRules = map[string][]writerRule{
 			"x/storage.InitGenesis": "genesis import writes the exported forms back (C19); not a transaction path",
 		},
 	}},
+	"C13": {{
+		Prop: "C13", What: "minted-block records",
+		Pkgs:    []string{"x/jklmint/keeper", "x/jklmint"},
+		Writers: map[string]bool{"SetMintedBlock": true},
+		Recv:    map[string]bool{"Keeper": true, "Migrator": true},
+		Allow:   map[string]string{},
+	}},
 	"C01": {{
 		Prop: "C01", What: "proof records and prover lists",
 		Pkgs:    []string{"x/storage/keeper", "x/storage/types", "x/storage"},
